@@ -427,6 +427,29 @@ fn base_lines() -> Vec<&'static str> {
 
 /// compile errors name the line of the offending token: one stray token injected before every
 /// statement of a valid multi-line program
+/// first lines for programs placed far down a long file (around 2^8, 2^15, 2^16 and 2^17, and well past)
+const FAR_LINES: [usize; 11] = [255, 256, 32766, 32767, 32768, 65534, 65535, 65536, 65537, 70000, 131071];
+
+/// every fortieth program of the run-time families, its first statement on each of the far lines: classes,
+/// messages and every trace entry's line as M-eval gives them
+fn far_line_cases() -> Vec<Case> {
+    let mut out = Vec::new();
+    for (i, c) in runtime_cases(false).into_iter().enumerate() {
+        if i % 40 != 7 {
+            continue;
+        }
+        for first in FAR_LINES {
+            let mut k = Case::new("R_far_down_a_long_file", c.prog.clone());
+            k.modules = c.modules.clone();
+            k.opts = c.opts;
+            k.note = c.note.clone();
+            k.first_line = first;
+            out.push(k);
+        }
+    }
+    out
+}
+
 fn compile_error_lines(ctx: &Ctx, report: &mut Report) -> usize {
     let base = base_lines();
     // statement starts (index into `base`, 0-based) where a new statement may begin
@@ -443,6 +466,15 @@ fn compile_error_lines(ctx: &Ctx, report: &mut Report) -> usize {
             let mut lines: Vec<String> = base.iter().map(|l| l.to_string()).collect();
             lines.insert(at, t.to_string());
             cases.push((lines.join("\n") + "\n", at + 1, t.to_string()));
+        }
+    }
+    // the same far down a long file: the stray token on a line around every power of two a narrow line
+    // counter could wrap at
+    for pad in FAR_LINES {
+        for t in [")", "catch", "=="] {
+            let mut lines: Vec<String> = base.iter().map(|l| l.to_string()).collect();
+            lines.insert(5, t.to_string());
+            cases.push(("\n".repeat(pad - 1) + &lines.join("\n") + "\n", pad + 5, t.to_string()));
         }
     }
     let n = cases.len();
@@ -589,11 +621,11 @@ pub fn run(ctx: &Ctx) -> Report {
     let hooks = Hooks { attribute: &|_c, _m, _o, _mm| None, nontrivial: &|_c, m| matches!(&m.outcome, Outcome::Uncaught(u) if u.trace.len() >= 2) || !m.out.is_empty(), fuel: 2_000_000 };
     // (plus C08's programs in which one function is active twice with an outcome waiting in the outer
     // activation's finally block: the uncaught variants' reports are compared entry by entry)
-    let stats = mcheck::run(ctx, runtime_cases(thorough).into_iter().chain(crate::c08::recursion_from_finally()), &hooks);
+    let stats = mcheck::run(ctx, runtime_cases(thorough).into_iter().chain(far_line_cases()).chain(crate::c08::recursion_from_finally()), &hooks);
     mcheck::fill_report(
         &mut report,
         &stats,
-        "R: every call chain of depth 0-3/4 over link kinds {function, method, static method, lambda, constructor, map callback, reduce callback, fiber body} with the failing statement (12 kinds: throws of 4 value kinds, 6 failing built-ins, throwing callees) at the bottom, in place, inside a module function or as a module body; one statement per line with padding so every line differs. Uncaught variant: class, text (where the model defines it), error kind and the full trace (one entry per active call, innermost first; library frames by name only) must equal M-eval's; caught variant: the handler sees the same class. The same with an earlier, completely handled exception (7 shapes: thrown and caught in place, thrown by a callee, thrown by a function of another module, raised by a built-in, caught after passing a finally block, caught in a loop, handled in another fiber that ran to its end) placed in each active frame of every chain up to depth 2/3 before the failing statement. The same with the call or failing statement at each position wrapped in one or two nested try/finally statements, so that the uncaught error passes through finally blocks (the report lists the calls still active when it is made, each with the line of the statement it was executing when the error was raised). Plus caught==uncaught on the implementation for 26 failing statements including host natives of every ErrorKind, compile-error lines for a stray token before every statement, and the same for a module that does not compile: every attempt to import it (seven placements in one program, then two more programs on the same interpreter) reports ImportError with the module's name, the line and the token; a missing module likewise. Plus the 240 programs of C08's family `recursion_from_a_finally_block` (one function active twice, the outer activation in its finally block with an outcome waiting): class, message and trace of the uncaught variants. non-trivial = a trace of at least two entries, or output.",
+        "R: every call chain of depth 0-3/4 over link kinds {function, method, static method, lambda, constructor, map callback, reduce callback, fiber body} with the failing statement (12 kinds: throws of 4 value kinds, 6 failing built-ins, throwing callees) at the bottom, in place, inside a module function or as a module body; one statement per line with padding so every line differs. Uncaught variant: class, text (where the model defines it), error kind and the full trace (one entry per active call, innermost first; library frames by name only) must equal M-eval's; caught variant: the handler sees the same class. The same with an earlier, completely handled exception (7 shapes: thrown and caught in place, thrown by a callee, thrown by a function of another module, raised by a built-in, caught after passing a finally block, caught in a loop, handled in another fiber that ran to its end) placed in each active frame of every chain up to depth 2/3 before the failing statement. The same with the call or failing statement at each position wrapped in one or two nested try/finally statements, so that the uncaught error passes through finally blocks (the report lists the calls still active when it is made, each with the line of the statement it was executing when the error was raised). Plus caught==uncaught on the implementation for 26 failing statements including host natives of every ErrorKind, compile-error lines for a stray token before every statement, and the same for a module that does not compile: every attempt to import it (seven placements in one program, then two more programs on the same interpreter) reports ImportError with the module's name, the line and the token; a missing module likewise. Plus the 240 programs of C08's family `recursion_from_a_finally_block` (one function active twice, the outer activation in its finally block with an outcome waiting): class, message and trace of the uncaught variants. Plus every fortieth program of the run-time families placed far down a long file - its first statement (and that of every module) on line 255, 256, 32766..32768, 65534..65537, 70000 and 131071 - and compile errors on such lines. non-trivial = a trace of at least two entries, or output.",
         json!({"chain_depth": if thorough { 4 } else { 3 }, "link_kinds": LINKS.len(), "failing_statements": FAILS.len()}),
     );
     let (n_ceq, _bad) = caught_equals_uncaught(ctx, &mut report);
